@@ -87,6 +87,16 @@ type Step struct {
 	Gate   int    `json:"gate,omitempty"`
 	// Rows (step "aclset"): the operator replaces the ACL table
 	Rows []ACLRow `json:"rows,omitempty"`
+	// Seq (first member of a burst): the members are executed one after the other
+	// by the harness (not by concurrent writers), waiting after each only until
+	// every goroutine of the server is parked, a sender either on its empty queue
+	// or at the closed gate of its stream; all gates are opened at the end.
+	// Hold (Subscribe step / poll trigger): the gate of the first caller's stream
+	// is closed just before the step, so that its walk completes while the sender
+	// is parked at its first Send.  Step "gate": Target "a"/"b" = which caller's
+	// stream, Gate = how many further Sends may pass (0 = closed, -1 = open).
+	Seq  bool `json:"seq,omitempty"`
+	Hold bool `json:"hold,omitempty"`
 	// At (poll steps that directly follow the Subscribe step or another poll
 	// step): when the client issues the trigger.  0: after the subscriber became
 	// quiescent.  1: at the moment it receives the previous sync_response, i.e.
@@ -180,6 +190,9 @@ type Case struct {
 	// behaviour-neutral options added (WithStats, WithFlowControlTest, the stats
 	// test hooks, WithTimeout(default)).  0 = WithACL, WithTimeout in that order.
 	Build uint64 `json:"build,omitempty"`
+	// OneP: the case runs with GOMAXPROCS(1) (makes the reuse of pooled objects
+	// between two senders deterministic)
+	OneP bool `json:"one_p,omitempty"`
 	// Perturb: 1 = producers yield at the insert schedule point of the coalescing
 	// queue, 2 = the consumer yields at the point where it found the queue empty
 	Perturb int `json:"perturb,omitempty"`
@@ -360,6 +373,11 @@ type memStream struct {
 	mu    sync.Mutex
 	cur   []OResp
 	syncs int64 // sync responses sent so far (atomic)
+	// the gate: -1 open; k >= 0: k more Sends may pass, then Send blocks.  A Send
+	// waits at the gate BEFORE it looks at the response: what is recorded is what
+	// the stream carries at the time it is actually written.
+	gate     int
+	gateCond *sync.Cond
 	// a trigger the client issues when it receives the next sync_response
 	armed   *pb.SubscribeRequest
 	armMode int
@@ -392,8 +410,21 @@ func (s *memStream) Recv() (*pb.SubscribeRequest, error) {
 	}
 }
 
+func (s *memStream) setGate(k int) {
+	s.mu.Lock()
+	s.gate = k
+	s.mu.Unlock()
+	s.gateCond.Broadcast()
+}
+
 func (s *memStream) Send(r *pb.SubscribeResponse) error {
 	s.mu.Lock()
+	for s.gate == 0 {
+		s.gateCond.Wait()
+	}
+	if s.gate > 0 {
+		s.gate--
+	}
 	s.sends++
 	// failAt = k > 0: the k-th Send fails; failAt = -1: the first Send of a
 	// response that carries a duplicate count fails
@@ -489,6 +520,7 @@ type gstate struct {
 	blocked       int // of those: parked in a select or a channel receive
 	parkedSenders int // parked in the select of coalesce.Queue.Next
 	parkedPollers int // parked in the stream's Recv below processPollingSubscription
+	gatedSenders  int // parked at the closed gate of their stream's Send
 	ids           []string
 }
 
@@ -524,8 +556,12 @@ func goroutineStates() gstate {
 			st = string(head[i+1:])
 		}
 		sel, rcv := strings.HasPrefix(st, "select"), strings.HasPrefix(st, "chan receive")
-		if sel || rcv {
+		gated := strings.HasPrefix(st, "sync.Cond.Wait") && bytes.Contains(body, []byte("(*memStream).Send("))
+		if sel || rcv || gated {
 			g.blocked++
+		}
+		if gated {
+			g.gatedSenders++
 		}
 		if sel && bytes.Contains(body, []byte("coalesce.(*Queue).Next(")) {
 			g.parkedSenders++
@@ -578,6 +614,8 @@ func settle(rpcs []*rpc, limit time.Duration) bool {
 				started++
 				if !r.returned() {
 					live++
+				} else {
+					r.st.setGate(-1) // the call is over: its sender must be able to drain and leave
 				}
 			}
 		}
@@ -589,7 +627,7 @@ func settle(rpcs []*rpc, limit time.Duration) bool {
 			if g.server == g.parkedPollers {
 				return true
 			}
-		} else if g.server == g.blocked && g.parkedSenders == live {
+		} else if g.server == g.blocked && g.parkedSenders+g.gatedSenders == live {
 			still := 0
 			for _, r := range rpcs {
 				if r.started && !r.returned() {
@@ -962,6 +1000,9 @@ func opTarget(op Step) string {
 // the same peer address (request c.Req2, user c.User2) that overlaps the first.
 func runScript(c *Case, withACL bool, faults bool) []*Run {
 	polluted = false
+	if c.OneP {
+		defer runtime.GOMAXPROCS(runtime.GOMAXPROCS(1))
+	}
 	if c.Perturb != 0 {
 		atomic.StoreInt32(&perturb, int32(c.Perturb))
 		defer atomic.StoreInt32(&perturb, 0)
@@ -980,7 +1021,9 @@ func runScript(c *Case, withACL bool, faults bool) []*Run {
 			ctx = context.WithValue(ctx, userKey{}, *user)
 		}
 		ctx, cancel := context.WithCancel(ctx)
-		return &rpc{st: &memStream{ctx: ctx, split: -1, reqs: make(chan *pb.SubscribeRequest, 8), recvErr: make(chan struct{}, 1)}, cancel: cancel, done: make(chan struct{}), req: req}
+		ms := &memStream{ctx: ctx, split: -1, gate: -1, reqs: make(chan *pb.SubscribeRequest, 8), recvErr: make(chan struct{}, 1)}
+		ms.gateCond = sync.NewCond(&ms.mu)
+		return &rpc{st: ms, cancel: cancel, done: make(chan struct{}), req: req}
 	}
 	rpcs := []*rpc{mk(c.User, c.Req)}
 	if faults {
@@ -1059,6 +1102,53 @@ func runScript(c *Case, withACL bool, faults bool) []*Run {
 			runs[i].Obs = append(runs[i].Obs, o)
 		}
 	}
+	// doStep performs one step (no waiting, no recording)
+	doStep := func(op Step, ob *OObs) {
+		if op.Hold {
+			rpcs[0].st.setGate(0)
+		}
+		switch op.K {
+		case "update", "remove", "addtarget", "churn", "aclset":
+			applyCache(op, ob)
+		case "gate":
+			r := rpcs[0]
+			if op.Target == "b" && two {
+				r = rpcs[1]
+			}
+			r.st.setGate(op.Gate)
+		case "sub":
+			if !rpcs[0].started {
+				startRPC(rpcs[0])
+			}
+			ob.HasDump = true
+		case "sub2":
+			if two && !rpcs[1].started {
+				startRPC(rpcs[1])
+			}
+			ob.HasDump = true
+		case "poll":
+			rpcs[0].st.mu.Lock()
+			fired := rpcs[0].st.fired
+			rpcs[0].st.fired = false
+			rpcs[0].st.mu.Unlock()
+			if r := rpcs[0]; fired {
+				polls++ // the trigger was issued from inside the previous sync's Send
+			} else if r.started && !r.closedReqs && !r.returned() {
+				polls++
+				if faults && c.RecvErrAt > 0 && polls == c.RecvErrAt {
+					r.st.recvErr <- struct{}{}
+				} else {
+					r.st.reqs <- trigger(op, r.req)
+				}
+			}
+			ob.HasDump = true
+		}
+	}
+	openGates := func() {
+		for _, r := range rpcs {
+			r.st.setGate(-1)
+		}
+	}
 	normaliseBursts(c.Ops)
 	for i := 0; i < len(c.Ops); i++ {
 		op := c.Ops[i]
@@ -1076,6 +1166,35 @@ func runScript(c *Case, withACL bool, faults bool) []*Run {
 			obs := make([]OObs, len(members))
 			for k := range obs {
 				obs[k] = OObs{CRes: "ok", Burst: members[k].Burst}
+			}
+			if members[0].Seq {
+				// a scripted span: one member after the other, the senders stepped
+				// through the gates of their streams
+				if members[0].K == "sub" || members[0].K == "poll" {
+					obs[0].HasDump = true
+					obs[0].Dump = dumpCache(ca, c.Targets)
+				}
+				for k := range members {
+					if hung {
+						break
+					}
+					hd := obs[k].HasDump
+					doStep(members[k], &obs[k])
+					obs[k].HasDump = hd
+					waitQuiet()
+				}
+				openGates()
+				waitQuiet()
+				last := len(obs) - 1
+				if !hung {
+					obs[last].HasDump = true
+					obs[last].Dump = dumpCache(ca, c.Targets)
+				}
+				for k := range obs {
+					record(obs[k], k == len(obs)-1)
+				}
+				i = j
+				continue
 			}
 			walk := (members[0].K == "sub" && !rpcs[0].started) ||
 				(members[0].K == "poll" && rpcs[0].started && !rpcs[0].closedReqs && !rpcs[0].returned())
@@ -1163,36 +1282,7 @@ func runScript(c *Case, withACL bool, faults bool) []*Run {
 			}
 		}
 		ob := OObs{CRes: "ok"}
-		switch op.K {
-		case "update", "remove", "addtarget", "churn", "aclset":
-			applyCache(op, &ob)
-		case "sub":
-			if !rpcs[0].started {
-				startRPC(rpcs[0])
-			}
-			ob.HasDump = true
-		case "sub2":
-			if two && !rpcs[1].started {
-				startRPC(rpcs[1])
-			}
-			ob.HasDump = true
-		case "poll":
-			rpcs[0].st.mu.Lock()
-			fired := rpcs[0].st.fired
-			rpcs[0].st.fired = false
-			rpcs[0].st.mu.Unlock()
-			if r := rpcs[0]; fired {
-				polls++ // the trigger was issued from inside the previous sync's Send
-			} else if r.started && !r.closedReqs && !r.returned() {
-				polls++
-				if faults && c.RecvErrAt > 0 && polls == c.RecvErrAt {
-					r.st.recvErr <- struct{}{}
-				} else {
-					r.st.reqs <- trigger(op, r.req)
-				}
-			}
-			ob.HasDump = true
-		}
+		doStep(op, &ob)
 		waitQuiet()
 		rpcs[0].st.mu.Lock()
 		rpcs[0].st.armed = nil // not fired (no sync came): the next step sends its trigger itself
@@ -1204,6 +1294,7 @@ func runScript(c *Case, withACL bool, faults bool) []*Run {
 		}
 		record(ob, true)
 	}
+	openGates()
 	// end of script: the clients end their calls (EOF for a poller, then cancel)
 	if c.IdleEndMS > 0 && rpcs[0].started && !hung {
 		time.Sleep(time.Duration(c.IdleEndMS) * time.Millisecond)
@@ -1370,6 +1461,8 @@ func (f *caseFile) step(s Step) string {
 		return "SCache (CUpdate " + f.noti(s.N) + ")"
 	case "remove":
 		return fmt.Sprintf("SCache (CRemove %s %s)", f.names.Ref(s.Target), vh.Z(s.Now))
+	case "gate":
+		return "SPoll" // a step of the client side only: nothing happens in a streaming responder
 	case "aclset":
 		rows := make([]string, len(s.Rows))
 		for i, r := range s.Rows {
